@@ -60,6 +60,7 @@ type FnCtx struct {
 	havocAllSeen  bool
 	ghostDefs     map[string]bool
 	nq            int
+	modTargets    []modTarget
 	poolVals      map[string]bool
 	immut         map[string]bool // heap names of immutable globals
 	nonNil        map[string]bool
